@@ -210,8 +210,119 @@ func registerFilesAndTime(ex *Explorer) {
 	ex.register("os.MkdirAll", func(fr *frame, args []value) value { return iface{} })
 }
 
+// Signatures (assumption A-SIG): a signature is an opaque handle naming the
+// key and the exact message; recovery yields the key's address only for that
+// very message, an unrelated address otherwise.
+type keyInfo struct {
+	addr, pub []byte
+}
+
+func keyTable(c *pathCtx) map[string]*keyInfo {
+	if c.scratch["keys"] == nil {
+		c.scratch["keys"] = map[string]*keyInfo{}
+	}
+	return c.scratch["keys"].(map[string]*keyInfo)
+}
+
+func registerSig(ex *Explorer) {
+	const cp = "github.com/rigochain/rigo-go/types/crypto."
+	ex.register(zz+"RegisterKey", func(fr *frame, args []value) value {
+		addr, _ := concreteBytes(args[1].([]value))
+		pub, _ := concreteBytes(args[2].([]value))
+		keyTable(fr.i.ctx)[args[0].(string)] = &keyInfo{addr: addr, pub: pub}
+		return nil
+	})
+	ex.register(cp+"ImportPrvKeyHex", func(fr *frame, args []value) value {
+		return tuple{boxed(args[0].(string)), iface{}}
+	})
+	ex.register(cp+"Sign", func(fr *frame, args []value) value {
+		pv := args[1].(*value)
+		if pv == nil {
+			nilDeref()
+		}
+		key := (*pv).(string)
+		msg := args[0].([]value)
+		s := &snap{kind: 'S', names: []string{"key", "msg"}, elems: []*snap{{kind: 'T', str: key}, {kind: 'V', raw: append([]value{}, msg...)}}}
+		return tuple{handleBytes(&handle{kind: "sig", snap: s}), iface{}}
+	})
+	ex.register(cp+"Sig2Addr", func(fr *frame, args []value) value {
+		c := fr.i.ctx
+		msg, sig := args[0].([]value), args[1].([]value)
+		h, ok := handleOf(sig)
+		if !ok || h.kind != "sig" {
+			return tuple{[]value(nil), []value(nil), fr.i.newXError("invalid signature")}
+		}
+		ki := keyTable(c)[h.snap.elems[0].str]
+		if ki == nil {
+			unsupp("signature by an unregistered key")
+		}
+		signed := h.snap.elems[1].raw.([]value)
+		if c.branch(bytesEqTerm(signed, msg)) {
+			return tuple{bytesToValues(ki.addr), bytesToValues(ki.pub), iface{}}
+		}
+		// recovery over a different message: some unrelated key
+		other := make([]byte, 20)
+		other[0], other[19] = 0xBA, 0xD0
+		opub := make([]byte, 33)
+		opub[0], opub[1] = 0x02, 0xBD
+		return tuple{bytesToValues(other), bytesToValues(opub), iface{}}
+	})
+	ex.register(cp+"PubBytes2Addr", func(fr *frame, args []value) value {
+		pub, ok := concreteBytes(args[0].([]value))
+		if !ok {
+			unsupp("PubBytes2Addr of symbolic bytes")
+		}
+		for _, ki := range keyTable(fr.i.ctx) {
+			if string(ki.pub) == string(pub) {
+				return tuple{bytesToValues(ki.addr), iface{}}
+			}
+		}
+		// unknown key: an address derived injectively from the key bytes
+		sum := sha256.Sum256(pub)
+		return tuple{bytesToValues(sum[:20]), iface{}}
+	})
+}
+
+// newXError builds a types/xerrors.XError value (code ordinary).
+func (i *interpreter) newXError(msg string) value {
+	pkg := i.prog.ImportedPackage("github.com/rigochain/rigo-go/types/xerrors")
+	if pkg == nil {
+		unsupp("xerrors not loaded")
+	}
+	fn := pkg.Func("NewOrdinary")
+	return call(i, nil, token.NoPos, fn, []value{msg})
+}
+
+type modelHasher struct{ parts []*snap }
+
+func registerHasher(ex *Explorer) {
+	byteSlice := types.NewSlice(types.Typ[types.Uint8])
+	ex.register("crypto/sha256.New", func(fr *frame, args []value) value {
+		t := types.NewPointer(namedType(fr, "crypto/sha256", "digest"))
+		return iface{t: t, v: boxed(&modelHasher{})}
+	})
+	get := func(v value) *modelHasher { return (*(v.(*value))).(*modelHasher) }
+	ex.register("(*crypto/sha256.digest).Write", func(fr *frame, args []value) value {
+		h := get(args[0])
+		b := args[1].([]value)
+		h.parts = append(h.parts, fr.i.snapOf(fr, append([]value{}, b...), byteSlice, modeProto, false))
+		return tuple{len(b), iface{}}
+	})
+	ex.register("(*crypto/sha256.digest).Reset", func(fr *frame, args []value) value {
+		get(args[0]).parts = nil
+		return nil
+	})
+	ex.register("(*crypto/sha256.digest).Sum", func(fr *frame, args []value) value {
+		h := get(args[0])
+		hd := &handle{kind: "hash", snap: &snap{kind: 'L', elems: append([]*snap{}, h.parts...)}}
+		return append(append([]value{}, args[1].([]value)...), handleBytes(hd)...)
+	})
+}
+
 func registerMisc(ex *Explorer) {
 	registerStrings(ex)
+	registerSig(ex)
+	registerHasher(ex)
 	registerFilesAndTime(ex)
 	// transaction hash: injective on the identity of the encoded bytes
 	ex.register("(github.com/tendermint/tendermint/types.Tx).Hash", func(fr *frame, args []value) value {
